@@ -199,6 +199,8 @@ type caseDesc struct {
 	Name   string   `json:"name,omitempty"`   // kind=large: len4 | prefsuf | seq
 	N      int      `json:"n,omitempty"`      // kind=large: number of keys
 	Assign []int    `json:"assign,omitempty"` // kv part: dictionary index per key (keys in ascending order)
+	// kv part: only the "holds exactly these pairs" oracle in every stage (the thorough-only 3^12 family)
+	Light bool `json:"light,omitempty"`
 	// enum part, large sets only: 0 = every representation, k>0 = only the k-th representation (work is spread over workers)
 	Section int `json:"section,omitempty"`
 	Keys   []string `json:"keys_quoted,omitempty"`
